@@ -8,6 +8,10 @@ def _exponential(x, A=2.0, tau=1.5):
     return A * np.exp(-x / tau)
 
 
+def _expoffset(x, A=2.0, tau=1.5, c=0.1):
+    return A * np.exp(-x / tau) + c
+
+
 def _powerlaw(x, a=1.5, b=1.3):
     return a * x ** b
 
@@ -29,6 +33,7 @@ def _density(x, mu=2.5, sigma=1.0):
 
 
 FAMILIES = {
+    "expoffset": dict(f=_expoffset, x=(0.2, 6.0, 13), truth=(2.0, 1.5, -0.2), names=("A", "tau", "c"), noise=0.05),
     "exponential": dict(f=_exponential, x=(0.2, 5.0, 11), truth=(2.0, 1.5), names=("A", "tau"), noise=0.05),
     "powerlaw": dict(f=_powerlaw, x=(1.0, 6.0, 10), truth=(1.5, 1.3), names=("a", "b"), noise=0.25),
     "peak": dict(f=_peak, x=(0.0, 5.0, 13), truth=(3.0, 2.5, 0.8), names=("A", "mu", "s"), noise=0.08),
@@ -58,6 +63,8 @@ def make_fit(cfg, backend):
         fit.add_error("y", F["noise"], name="ey")
         if cfg["errors"] in ("xy", "xymodelrel"):
             fit.add_error("x", 0.04, name="ex")
+        if cfg["errors"] == "xmodel":
+            fit.add_error("x", 0.2, reference="model", name="exm")     # x uncertainty declared on the model only
         if cfg["errors"] in ("ymodelrel", "xymodelrel"):
             fit.add_error("y", 0.03, relative=True, reference="model", name="emr")
         names, truth = F["names"], F["truth"]
@@ -69,6 +76,9 @@ def make_fit(cfg, backend):
         j = cfg["limited"] - 1
         if cfg["limit"] == "inside":
             lo, hi = truth[j] - 0.8 * abs(truth[j]), truth[j] + 0.8 * abs(truth[j])
+        elif cfg["limit"] == "zero":
+            lo, hi = 0, 1.0                                             # a limit of exactly zero; the unconstrained optimum is negative
+            fit.set_parameter_values(**{names[j]: 0.1})
         else:
             lo, hi = truth[j] - 0.8 * abs(truth[j]), truth[j] * 0.97       # the unconstrained optimum lies above: the limit is active
             fit.set_parameter_values(**{names[j]: truth[j] * 0.9})
